@@ -166,11 +166,13 @@ def _group_of(src):
 
 def corpus(tier):
     """[(group name, properties, [programs])]: every program at -O0 (C01, C15) and at -O1 (C02)."""
-    from . import u_condex, u_cond16, u_arithm, u_assign, u_shift, u_condval
+    from . import u_condex, u_cond16, u_arithm, u_assign, u_shift, u_condval, u_gencond
     groups = {}
     for mod in (u_condex, u_cond16, u_arithm, u_shift):
         for c in mod.candidates(None):
             groups.setdefault(_group_of(c["source"]), []).append(c)
+    for c in u_gencond.candidates(None):
+        groups.setdefault("logical-conditions", []).append(c)
     for c in u_condval.candidates(None):
         groups.setdefault("cond-value", []).append(c)
     for c in u_assign.candidates(None):
